@@ -126,6 +126,8 @@ def gen_value(rng, cls, f, cname):
         nb = (w + 7) // 8
         if name.startswith('spare') or name.startswith('reserved'):
             return b'', 'y:' + ('00' * nb)
+        if varlen and rng.random() < 0.08:
+            return b'', 'y:'                 # no application data at all (the default)
         if varlen:
             crit = gen.critical_tail_units(cls)
             k = rng.choice([1, 2, nb // 2, nb] + crit + crit) if nb > 1 else 1
@@ -233,6 +235,8 @@ class Prop:
             if bad:
                 how = 'short-data-loses-radio' if (cname.startswith('MessageType26') and
                                                    {k for k, _, _ in bad} <= {'data', 'radio'}) else 'value'
+                if all(e == 'y:' and g == 'N' for _, e, g in bad):
+                    how = 'empty-binary->None'
                 ctx.fail('a decoded field differs from the encoded value', dict(inp, field=bad[0][0]),
                          bad[0][1], bad[0][2], {'kind': 'field', 'class': cname, 'fields': sorted(k for k, _, _ in bad)[:3], 'how': how})
 
